@@ -11,7 +11,8 @@ Three layers, all run on every check:
         partial_transpose (dense and sparse method), _one_subsystem_apply (operator
         channel), the reshuffle permutation
         lists (spy on Qobj.permute; incl. the private Compound branch),
-        tensor() of square factors (Kronecker model of the product theorem)
+        tensor() of square and rectangular factors (left-nested loop and Kronecker
+        model), the kron kernels on pairs (kron_csr entry by entry)
      and a tiny translator (T) re-reads `contract_at` of
      tensor._tensor_contract_single and checks it is the modelled expression
   3. implementation-level oracle: NumPy reshape/transpose/einsum reference for
@@ -437,14 +438,37 @@ def corr_cases(dist, rng, scale):
 
     # ---- E. tensor_swap flat index map (kets, bras, rectangular operators)
     for _ in range(25 * scale):
-        t = rng.choice(["oper", "ket", "bra"])
-        fl = rand_dims(rng, 3, 12) if t != "bra" else [1]
-        fr = rand_dims(rng, 3, 12) if t != "ket" else [1]
-        if all(x == 1 for x in fl) and len(fl) > 1:
-            fl = [1]
-        if all(x == 1 for x in fr) and len(fr) > 1:
-            fr = [1]
-        n = len(fl) + len(fr)
+        t = rng.choice(["oper", "ket", "bra", "super", "operket"])
+        stl_e = str_e = None
+        qdims = None
+        if t in ("super", "operket"):
+            pool2 = (2, 2, 3) if rng.random() < 0.6 else (1, 2, 2, 3)
+            while True:
+                a_ = [rng.choice(pool2) for _ in range(rng.randint(1, 2))]
+                b_ = [rng.choice(pool2) for _ in range(rng.randint(1, 2))]
+                if (prod(a_) <= 4 and prod(b_) <= 4 and not all(x == 1 for x in a_)
+                        and not all(x == 1 for x in b_)):
+                    break
+            fl = a_ + a_
+            stl_e = "steps_super %s %s" % (cnats(a_), cnats(a_))
+            if t == "super":
+                fr = b_ + b_
+                str_e = "steps_super %s %s" % (cnats(b_), cnats(b_))
+                qdims = [[a_, a_], [b_, b_]]
+            else:
+                fr = [1]
+                qdims = [[a_, a_], [1]]
+        else:
+            fl = rand_dims(rng, 3, 12) if t != "bra" else [1]
+            fr = rand_dims(rng, 3, 12) if t != "ket" else [1]
+            if all(x == 1 for x in fl) and len(fl) > 1:
+                fl = [1]
+            if all(x == 1 for x in fr) and len(fr) > 1:
+                fr = [1]
+            qdims = [fl, fr]
+        stl_e = stl_e or "steps %s" % cnats(fl)
+        str_e = str_e or "steps %s" % cnats(fr)
+        n = len(fl) + len(fr) - (1 if t == "operket" else 0)
         idx = list(range(n))
         rng.shuffle(idx)
         pairs = [(idx[2 * i], idx[2 * i + 1]) for i in range(rng.randint(1, max(1, n // 2)))
@@ -454,7 +478,7 @@ def corr_cases(dist, rng, scale):
         tot = prod(fl) * prod(fr)
         A = np.arange(tot).reshape(prod(fl), prod(fr)).astype(complex)
         try:
-            out = qutip.tensor_swap(Qobj(A, dims=[fl, fr]), *pairs)
+            out = qutip.tensor_swap(Qobj(A, dims=qdims), *pairs)
             flat = [int(round(x.real)) for x in out.full().ravel()]
             where = [0] * tot
             for g, f in enumerate(flat):
@@ -462,12 +486,14 @@ def corr_cases(dist, rng, scale):
             impl = ("ok", where)
         except Exception as e:
             impl = ("err", type(e).__name__)
-        expr = ("map (tensor_swap_index (steps %s) (steps %s) %s %s %s) (seq 0 %d)"
-                % (cnats(fl), cnats(fr), cnats(fl), cnats(fr),
+        if impl[0] == "err" and t in ("super", "operket"):
+            continue          # qutip refuses the relabelled dims
+        expr = ("map (tensor_swap_index (%s) (%s) %s %s %s) (seq 0 %d)"
+                % (stl_e, str_e, cnats(fl), cnats(fr),
                    clist(pairs, lambda p: "(%d, %d)" % p), tot))
         cases.append({"kind": "tensor_swap_index", "expr": expr, "impl": impl,
                       "nontrivial": tot > 2,
-                      "info": {"dims": [fl, fr], "pairs": pairs}})
+                      "info": {"dims": qdims, "pairs": pairs}})
         bump("tensor_swap_index:" + t)
     # ---- G. reshuffle: the permutation lists built by _to_super_of_tensor /
     #         _to_tensor_of_super (observed at the Qobj.permute call they make)
@@ -606,24 +632,70 @@ def corr_cases(dist, rng, scale):
                       "info": {"dims": d, "idx": idx, "matrix": M, "U": U}})
         bump("subsys_one")
 
-    # ---- F. Kronecker product of square factors: tensor() vs kron_list
+    # ---- F. tensor(): the left-nested loop (tensor_data) and the right-nested
+    #         Kronecker product (kron_rc), rectangular factors included
     for _ in range(12 * scale):
-        d = rand_dims(rng, 4, 24)
-        Ms = [rand_mat(rng, x, x, 0.8) for x in d]
-        fmts = [rng.choice(["CSR", "Dense", "Dia"]) for _ in d]
-        note_inflight({"op": "tensor", "params": {"dl": d, "dr": d, "factors": Ms, "fmts": fmts}})
+        k = rng.randint(1, 4)
+        square = rng.random() < 0.4
+        while True:
+            dl = [rng.choice([1, 2, 2, 3]) for _ in range(k)]
+            dr = list(dl) if square else [rng.choice([1, 1, 2, 3]) for _ in range(k)]
+            if prod(dl) * prod(dr) <= 400:
+                break
+        Ms = [rand_mat(rng, a_, b_, 0.8) for a_, b_ in zip(dl, dr)]
+        fmts = [rng.choice(["CSR", "Dense", "Dia"]) for _ in dl]
+        note_inflight({"op": "tensor", "params": {"dl": dl, "dr": dr, "factors": Ms, "fmts": fmts}})
         try:
-            out = qutip.tensor(*[Qobj(to_np(M), dims=[[x], [x]]).to(f)
-                                 for M, x, f in zip(Ms, d, fmts)])
+            out = qutip.tensor(*[Qobj(to_np(M), dims=[[a_], [b_]]).to(f)
+                                 for M, a_, b_, f in zip(Ms, dl, dr, fmts)])
             impl = ("ok", from_np(out.full()))
         except Exception as e:
             impl = ("err", type(e).__name__)
-        N = prod(d)
-        expr = ("map (fun i => map (fun j => kron_list G g1 gmul %s %s i j) (seq 0 %d)) (seq 0 %d)"
-                % (clist(Ms, lambda M: "(mat_of_list G g0 %s)" % cmat(M)), cnats(d), N, N))
-        cases.append({"kind": "kron", "expr": expr, "impl": impl, "nontrivial": len(d) >= 2,
-                      "info": {"dl": d, "dr": d, "factors": Ms, "fmts": fmts}})
-        bump("kron")
+        facs = clist(Ms, lambda M: "(mat_of_list G g0 %s)" % cmat(M))
+        expr = ("(map (fun i => map (fun j => tensor_data G g1 gmul %s %s %s i j) (seq 0 %d)) (seq 0 %d), "
+                "map (fun i => map (fun j => kron_rc G g1 gmul %s %s %s i j) (seq 0 %d)) (seq 0 %d))"
+                % (facs, cnats(dl), cnats(dr), prod(dr), prod(dl),
+                   facs, cnats(dl), cnats(dr), prod(dr), prod(dl)))
+        cases.append({"kind": "kron", "expr": expr, "impl": impl, "nontrivial": k >= 2,
+                      "info": {"dl": dl, "dr": dr, "factors": Ms, "fmts": fmts}})
+        bump("kron:" + ("square" if square else "rect"))
+
+    # ---- K. the kron kernels on a pair: kron_csr entry by entry, the others
+    #         by their meaning kron2
+    for _ in range(10 * scale):
+        sl = (rng.randint(1, 4), rng.randint(1, 4))
+        sr = (rng.randint(1, 4), rng.randint(1, 4))
+        ML = rand_mat(rng, sl[0], sl[1], 0.6)
+        MR = rand_mat(rng, sr[0], sr[1], 0.6)
+        fl_, fr_ = rng.choice(["CSR", "Dense", "Dia"]), rng.choice(["CSR", "Dense", "Dia"])
+        note_inflight({"op": "kron_pair", "params": {"ML": ML, "MR": MR, "fmts": [fl_, fr_]}})
+        L = _data.to(fl_, _data.Dense(to_np(ML)))
+        R = _data.to(fr_, _data.Dense(to_np(MR)))
+        try:
+            out = _data.kron(L, R)
+            impl = ("ok", from_np(out.to_array()))
+        except Exception as e:
+            impl = ("err", type(e).__name__)
+        expr = ("map (fun i => map (fun j => kron2 G gmul (mat_of_list G g0 %s) (mat_of_list G g0 %s) "
+                "%d %d i j) (seq 0 %d)) (seq 0 %d)"
+                % (cmat(ML), cmat(MR), sr[0], sr[1], sl[1] * sr[1], sl[0] * sr[0]))
+        cases.append({"kind": "kron2", "expr": expr, "impl": impl, "nontrivial": True,
+                      "info": {"ML": ML, "MR": MR, "fmts": [fl_, fr_]}})
+        bump("kron2:%s-%s" % (fl_, fr_))
+        Lc = _data.to("CSR", _data.Dense(to_np(ML)))
+        Rc = _data.to("CSR", _data.Dense(to_np(MR)))
+        try:
+            out = _data.kron_csr(Lc, Rc)
+            impl = ("ok", int(out.as_scipy().nnz), from_np(out.to_array()))
+        except Exception as e:
+            impl = ("err", type(e).__name__)
+        expr = ("let E := kron_csr_entries G gmul %d %d %s %s in "
+                "(length E, to_dense G g0 gadd %d %d E)"
+                % (sr[0], sr[1], centries(csr_entries(Lc)), centries(csr_entries(Rc)),
+                   sl[0] * sr[0], sl[1] * sr[1]))
+        cases.append({"kind": "kron_csr", "expr": expr, "impl": impl, "nontrivial": True,
+                      "info": {"ML": ML, "MR": MR}})
+        bump("kron_csr")
     note_inflight(None)
     return cases, dist
 
@@ -656,7 +728,11 @@ def compare_case(c, val):
     if k == "reshuffle_tos":
         return impl[0] == "ok" and list(val) == impl[1]
     if k == "kron":
+        return impl[0] == "ok" and gmat(val[0]) == impl[1] and gmat(val[1]) == impl[1]
+    if k == "kron2":
         return impl[0] == "ok" and gmat(val) == impl[1]
+    if k == "kron_csr":
+        return impl[0] == "ok" and int(val[0]) == impl[1] and gmat(val[1]) == impl[2]
     if k == "tensor_swap_index":
         return impl[0] == "ok" and list(val) == impl[1]
     return False
@@ -1637,6 +1713,21 @@ def kernel_oracle_permute(info):
     return None
 
 
+def kron_pair_oracle(info):
+    """_data.kron of a pair against np.kron"""
+    from qutip.core import data as _data
+    ML, MR = to_np(info["ML"]), to_np(info["MR"])
+    ref = np.kron(ML, MR)
+    for f1, f2 in ([info["fmts"]] if "fmts" in info else []) + [["CSR", "CSR"]]:
+        try:
+            out = _data.kron(_data.to(f1, _data.Dense(ML)), _data.to(f2, _data.Dense(MR))).to_array()
+        except Exception as e:
+            return ("data.kron:%s-%s" % (f1, f2), "exception:" + type(e).__name__, "kron raises %r" % (e,))
+        if out.shape != ref.shape or not np.array_equal(out, ref):
+            return ("data.kron:%s-%s" % (f1, f2), "wrong-array", "kron differs from np.kron")
+    return None
+
+
 def find_failing(kind, lst):
     """Among disagreeing correspondence cases, the first on which the
     implementation violates the property itself: (k, op, params, result)."""
@@ -1651,12 +1742,15 @@ def find_failing(kind, lst):
             tries.append(("expand", {"dims": info["dims"], "targets": info["targets"],
                                      "oper": info["oper"], "fmt": info["fmt"]}, None))
         elif kind == "tensor_swap_index":
-            fl, fr = info["dims"]
+            from qutip.core.dimensions import flatten as _fl
+            nr_, nc_ = prod(_fl(info["dims"][0])), prod(_fl(info["dims"][1]))
             tries.append(("tensor_swap",
                           {"dims": info["dims"], "pairs": [list(x) for x in info["pairs"]],
                            "fmt": "Dense",
-                           "matrix": [[[r * prod(fr) + cc, 0] for cc in range(prod(fr))]
-                                      for r in range(prod(fl))]}, None))
+                           "matrix": [[[r * nc_ + cc, 0] for cc in range(nc_)]
+                                      for r in range(nr_)]}, None))
+        elif kind in ("kron2", "kron_csr"):
+            tries.append(("kron_pair", info, kron_pair_oracle))
         elif kind == "reshuffle_sot":
             ds = info["factor_dims"]
             ns2 = [prod(d) for d in ds]
@@ -1711,6 +1805,8 @@ def replay(ctx, payload):
 
     def one():
         note_inflight({"op": op, "params": p})
+        if op == "kron_pair":
+            return kron_pair_oracle(p)
         if op.startswith("kernel:"):
             return kernel_oracle_ptrace(p) if "ptrace" in op else kernel_oracle_permute(p)
         return oracle_case(op, p)
